@@ -276,10 +276,16 @@ def unsorted_domain_case(ctx, rs, rep):
     n_rows = int(rs.choice([80, 160]))
     y = rs.permutation(np.arange(n_rows) % n_classes)
     X = np.stack([(rs.randint(0, c, size=n_rows) + y) % c for c in cards], axis=1).astype(np.float32)
+    # how the codes of a feature are anchored is the caller's business: 0..c-1, or centred codes (-1 / 0 / +1 for down / flat / up,
+    # -2..2 for a Likert item) — a category is a label, not an array position
+    offs = [int(rs.choice([0, 0, -1, -2])) for _ in cards]
+    X = X + np.array(offs, dtype=np.float32)[None, :]
+    if any(offs):
+        ctx.count('classifiers-with-negative-category-codes')
     doms = []
-    for c in cards:
-        d = [int(t) for t in rs.permutation(c)]
-        while d == sorted(d):
+    for c, off in zip(cards, offs):
+        d = [int(t) + off for t in rs.permutation(c)]
+        while d == sorted(d) and off == 0:
             d = [int(t) for t in rs.permutation(c)]
         doms.append(d)
     clf = None
